@@ -427,48 +427,27 @@ def addrec_ter(l_sets, marked_left):
     left of the production rule
     :return Whether an element was actually marked
     """
-    # End condition, nothing left to process
-    temp_in = [x[0] for x in l_sets]
-    exists_after = [
-        exists(l_sets[index + 1:], lambda x: x[0] == l_sets[index][0])
-        for index in range(len(l_sets))]
-    exists_before = [l_sets[index][0] in temp_in[:index]
-                     for index in range(len(l_sets))]
-    marked_sets = [l_sets[index][1] for index in range(len(l_sets))]
-    marked_sets = [sorted(x, key=lambda x: -len(x)) for x in marked_sets]
-    # Try to optimize by having an order of the sets
-    sorted_zip = sorted(zip(exists_after, exists_before, marked_sets),
-                        key=lambda x: -len(x[2]))
-    exists_after, exists_before, marked_sets = \
-        zip(*sorted_zip)
+    # Exactly one consumption alternative has to be chosen for each symbol
+    # of the marked set: the candidates of a symbol are the marked sets of
+    # all its consumption rules
+    by_symbol = {}
+    for symbol, marked_sets in l_sets:
+        by_symbol.setdefault(symbol, set()).update(marked_sets)
+    choices = [sorted(x, key=lambda y: -len(y)) for x in by_symbol.values()]
     res = False
-    # contains tuples of index, temp_set
+    # (index of the symbol to process, set built so far)
     to_process = [(0, frozenset())]
     done = set()
     while to_process:
         index, new_temp = to_process.pop()
-        if index >= len(l_sets):
-            # Check if at least one non-terminal was considered, then if the
-            # set of non-terminals considered is marked of the right
-            # non-terminal in the production rule, then if a new set is
-            # marked or not
+        if index >= len(choices):
             if new_temp not in marked_left:
                 marked_left.add(new_temp)
                 res = True
             continue
-        if exists_before[index] or exists_after[index]:
-            to_append = (index + 1, new_temp)
-            to_process.append(to_append)
-        if not exists_before[index]:
-            # For all sets which were marked for the current consumption rule
-            for marked_set in marked_sets[index]:
-                if marked_set <= new_temp:
-                    to_append = (index + 1, new_temp)
-                elif new_temp <= marked_set:
-                    to_append = (index + 1, marked_set)
-                else:
-                    to_append = (index + 1, new_temp.union(marked_set))
-                if to_append not in done:
-                    done.add(to_append)
-                    to_process.append(to_append)
+        for marked_set in choices[index]:
+            to_append = (index + 1, new_temp.union(marked_set))
+            if to_append not in done:
+                done.add(to_append)
+                to_process.append(to_append)
     return res
